@@ -284,7 +284,7 @@ Definition merge_matrices (A B : csr) (lines : list nat) : res csr :=
   if negb (nmin A =? nmin B) then Err ValueErr else
   if negb (length lines =? nmaj B) then Err ValueErr else
   if negb (nodupb lines) then Err ValueErr else
-  (* if np.any(np.diff(lines) < 0): sort the lines and the lines of B with them *)
+  (* if np.any(lines[1:] < lines[:-1]): sort the lines and the lines of B with them *)
   let sorted := monotone lines in
   let sort_ind := argsort lines in
   let lines1 := if sorted then lines else gather 0 lines sort_ind in
